@@ -175,6 +175,9 @@ func sameValue(a, b ssa.Value) bool {
 			return sameAddr(x.X, y.X)
 		}
 		return sameValue(x.X, y.X)
+	case *ssa.BinOp:
+		y, ok := b.(*ssa.BinOp)
+		return ok && x.Op == y.Op && sameValue(x.X, y.X) && sameValue(x.Y, y.Y)
 	case *ssa.Extract:
 		y, ok := b.(*ssa.Extract)
 		return ok && x.Index == y.Index && x.Tuple == y.Tuple
